@@ -230,7 +230,7 @@ def subfs(R, prog):
             if (op, i) in EXEMPT:
                 R.exception(P + '.K10', '%s(%s)' % (op, nm), EXEMPT[(op, i)])
                 continue
-            if op.endswith('xattr') and nm == 'name':
+            if op.endswith('xattr') and i == 1:      # (path, name, ...): the second string of the xattr family is the attribute name
                 R.exception(P + '.K10', '%s(%s)' % (op, nm), 'attribute name, not a path')
                 continue
             paths.append(nm)
@@ -251,19 +251,20 @@ def subfs(R, prog):
         R.broken.append('C20.K10: expected >= 33 path parameters, found %d' % npar)
     # PathCat itself
     G = K.build(R, prog, 'photon::fs::SubFileSystem::PathCat::PathCat')
-    res = an.run(G, [an.GuardTracker(lambda k: True), an.SeenTracker([('nulled', lambda ev: ev.kind == 'binop' and ev.e['op'] == '=' and ev.path(ev.e['l']) == 'path' and ev.f.const(ev.e['r']) == 0)])])
+    PSUB, PPATH = K.param(G.root, 0), K.param(G.root, 1)          # (subfs, path)
+    res = an.run(G, [an.GuardTracker(lambda k: True), an.SeenTracker([('nulled', lambda ev: ev.kind == 'binop' and ev.e['op'] == '=' and ev.path(ev.e['l']) == PPATH and ev.f.const(ev.e['r']) == 0)])])
     cp = lambda ev: ev.kind == 'call' and ev.callee() in ('memcpy', 'strcpy', 'strncpy', 'memmove') and 'buf' in (ev.arg_show(0) or '')
     K.check_at(R, P + '.K6', G, res, cp,
-               require=lambda st, ev: any(re.match(r'^G:\w+ < \d+=T$', x) for x in st) and any(re.match(r'^G:photon::fs::path_level_valid\(path\)=T$', x) or re.match(r'^G:.*level_valid.*=T$', x) for x in st),
+               require=lambda st, ev: any(re.match(r'^G:\w+ < \d+=T$', x) for x in st) and (('G:photon::fs::path_level_valid(%s)=T' % PPATH) in st or any(re.match(r'^G:.*level_valid\(%s\)=T$' % re.escape(PPATH), x) for x in st)),
                key_fn=lambda ev: P + '.K6:SubFileSystem::PathCat:copy-after-length-and-level-tests',
                describe=lambda ev: 'bytes are copied into the path buffer only after the total-length bound and the level test succeeded', min_sites=2, what='memcpy into buf')
     K.check_at(R, P + '.K6', G, res, lambda ev: ev.kind == 'return' and ev.depth == 0,
-               require=lambda st, ev: 'S:nulled' in st or 'G:subfs->base_path_len=F' in st,
+               require=lambda st, ev: 'S:nulled' in st or ('G:%s->base_path_len=F' % PSUB) in st,
                key_fn=lambda ev: P + '.K6:SubFileSystem::PathCat:reject-nulls-path',
                describe=lambda ev: 'an early return either has no base path or has nulled the caller\'s path (rejection)', min_sites=3, what='early return')
     K.check_at(R, P + '.K7', G, res, lambda ev: ev.kind == 'exit',
                require=lambda st, ev: True, key_fn=lambda ev: P + '.K7:SubFileSystem::PathCat:exit', describe=lambda ev: 'exit', min_sites=1)
-    asg = lambda ev: ev.kind == 'binop' and ev.e['op'] == '=' and ev.path(ev.e['l']) == 'path' and 'buf' in ev.show(ev.e['r'])
+    asg = lambda ev: ev.kind == 'binop' and ev.e['op'] == '=' and ev.path(ev.e['l']) == PPATH and 'buf' in ev.show(ev.e['r'])
     res2 = an.run(G, [an.SeenTracker([('copied', cp)])])
     K.check_at(R, P + '.K8', G, res2, asg, require=lambda st, ev: 'S:copied' in st,
                key_fn=lambda ev: P + '.K8:SubFileSystem::PathCat:path-rebound-to-buffer', describe=lambda ev: 'the caller\'s path is re-pointed at the concatenated buffer after the copy', min_sites=1)
